@@ -1,6 +1,7 @@
 package scheduler
 
 import (
+	"bytes"
 	"sync/atomic"
 	"time"
 
@@ -45,6 +46,43 @@ func (s *Stage) UpdateStatus(status int32) {
 // ReadStatus is a helper to read stage's status atomically
 func (s *Stage) ReadStatus() int32 {
 	return atomic.LoadInt32(&s.Status)
+}
+
+// task returns the task as this stage executes it. Env, variables and dir given on the stage are
+// layered over the task's own on a copy that belongs to the stage: the task object may be
+// shared with other stages, other pipelines and direct runs and must not change under them.
+func (s *Stage) task() *task.Task {
+	overridesEnv := s.Env != nil && len(s.Env.Map()) > 0
+	overridesVars := s.Variables != nil && len(s.Variables.Map()) > 0
+	if !overridesEnv && !overridesVars && s.Dir == "" {
+		return s.Task
+	}
+
+	t := *s.Task
+	t.Log.Stdout, t.Log.Stderr = bytes.Buffer{}, bytes.Buffer{}
+	if overridesEnv {
+		if t.Env == nil {
+			t.Env = s.Env
+		} else {
+			t.Env = t.Env.Merge(s.Env)
+		}
+	}
+
+	if overridesVars {
+		if t.Variables == nil {
+			t.Variables = s.Variables
+		} else {
+			t.Variables = t.Variables.Merge(s.Variables)
+		}
+	}
+
+	if s.Dir != "" {
+		t.Dir = s.Dir
+	}
+
+	s.Task = &t
+
+	return s.Task
 }
 
 // Duration returns stage's execution duration
